@@ -125,9 +125,12 @@ PROPS = {
         "propfile": "PropC13.v",
         "n": {"quick": 600, "thorough": 20000},
         "corr": "tufv02 (and tufv01) TargetsMetadata / RootMetadata mutators vs tstep / rstep (Meta.v)",
-        "rule": "two thirds rule-file cases: 1-14 edits from {AddPrincipal, AddRule, UpdateRule, RemoveRule, ReorderRules, RemovePrincipal, "
+        "rule": "one eighth: a policy state with 1-3 rule files (primary + delegated, names mostly fresh, sometimes repeated across files) is "
+                "recorded and loaded (LoadCurrentState); loading must refuse exactly the states with a repeated rule name and State.HasRuleName "
+                "(what AddDelegation consults) must answer exactly; five eighths rule-file cases (half of them mostly valid: a prelude defines "
+                "principals and several live rules, removals frequent): 1-14 edits from {AddPrincipal, AddRule, UpdateRule, RemoveRule, ReorderRules, RemovePrincipal, "
                 "UpdatePrincipal} with arbitrary arguments (reserved and empty names, undefined/empty/duplicate principal ids, thresholds "
-                "-1..3, permutations/extra/missing names for reorder); one third root cases: 1-12 edits from {Add/Delete root and "
+                "-1..3, permutations/extra/missing names for reorder); one quarter root cases: 1-12 edits from {Add/Delete root and "
                 "primary-rule-file principals, threshold updates}. Each edit runs on a v02 and a v01 object; after every edit the v02 object "
                 "is dumped through the query interface. At the end both objects are serialised+reloaded and the v01 object migrated; "
                 "dumps and rule matching must be identical. non-trivial = >=3 edits",
